@@ -222,10 +222,38 @@ def scenarios(tier, meanwhile=None):
     return out + got["hist"]
 
 
+def _killed(r):
+    """TLC ended without a conclusion of its own (no error report, not finished, not timed out): the process was
+    killed from outside - on a shared machine that runs out of memory the kernel does that."""
+    return (not r["ok"]) and (not r["timed_out"]) and r["kind"] in (None, "error") and "Error:" not in r["out"]
+
+
+def _tlc_retry(name, module, cfg, tries=3, **kw):
+    import time
+    for k in range(tries):
+        r = vf.tlc(PID, name, module, cfg, **kw)
+        if not _killed(r) or k == tries - 1:
+            return r
+        vf.log("TLC %s/%s was killed from outside (rc=%s); trying again" % (module, cfg, r["rc"]))
+        time.sleep(10 + 20 * k)
+
+
+def _exhaustive(module, cfg, workers, heap, timeout=900):
+    """vf.tlc_exhaustive with another attempt when the JVM was killed from outside."""
+    r = _tlc_retry("mc-" + cfg.replace(".cfg", ""), module, cfg, workers=workers, timeout=timeout, heap=heap)
+    if r["timed_out"]:
+        raise vf.Broken("TLC exhaustive run timed out (%s)" % cfg)
+    if not r["ok"]:
+        raise vf.Broken("TLC exhaustive run of %s/%s did not pass (%s %s); see %s/tlc.out\n%s" % (
+            module, cfg, r["kind"], r["violated"], r["dir"], r["out"][-3000:]))
+    vf.log("TLC %s/%s: %d states generated, %d distinct, %.1fs" % (module, cfg, r["generated"], r["distinct"], r["wall_s"]))
+    return r
+
+
 def _expect_violation(cfg, inv, timeout=600, module="AttesterScratch"):
     """A control design (spec/AttesterScratch.tla) that the invariants must reject: otherwise the model cannot see
     the class (broken run, never a verdict)."""
-    r = vf.tlc(PID, "mc-" + cfg.replace(".cfg", ""), module, cfg, workers=4, timeout=timeout, heap="6g")
+    r = _tlc_retry("mc-" + cfg.replace(".cfg", ""), module, cfg, workers=4, timeout=timeout, heap="2g")
     if r["timed_out"] or r["kind"] != "invariant" or r["violated"] != inv:
         raise vf.Broken("%s should violate %s (vacuous model?): %s %s\n%s" % (cfg, inv, r["kind"], r["violated"], r["out"][-1500:]))
     vf.log("TLC %s/%s: %s violated as it must be (%d distinct states, %.1fs)" % (module, cfg, inv, r["distinct"], r["wall_s"]))
@@ -234,7 +262,9 @@ def _expect_violation(cfg, inv, timeout=600, module="AttesterScratch"):
 
 def model(tier, out):
     """Exhaustive runs (in threads beside the driver); results / exception into out."""
-    ex = lambda mod, cfg, **kw: (lambda: vf.tlc_exhaustive(PID, mod, cfg, workers=6 if "timeout" in kw else 4, **kw))
+    # (heaps no larger than the models need: the machine is shared)
+    ex = lambda mod, cfg, **kw: (lambda: _exhaustive(mod, cfg, workers=6 if "timeout" in kw else 4,
+                                                     heap="5g" if "timeout" in kw else "2g", **kw))
     bad = lambda cfg, inv, module="AttesterScratch": (lambda: _expect_violation(cfg, inv, module=module) and None)
     lanes = [
         [ex("MC_Attester", "MC_Attester_C04.cfg"),
@@ -298,7 +328,10 @@ def run(tier):
         "every validator the node reports is active",
     ]
     out = {}
-    th = threading.Thread(target=model, args=(tier, out))
+    # VERIF_C04_NOMC=1 (developer option, e.g. for lib/mutants.py on an overloaded machine): the exhaustive runs and the
+    # control models, which do not depend on the source tree, are left out; the evidence then says states = 0
+    nomc = os.environ.get("VERIF_C04_NOMC") == "1"
+    th = threading.Thread(target=(lambda: out.update(mc=[])) if nomc else (lambda: model(tier, out)))
     th.start()
     try:
         sc = scenarios(tier, meanwhile=lambda: wired_conformance(v, wired_scenarios(tier)))
